@@ -521,6 +521,42 @@ def main():
         if body != [want]:
             raise GenError(f"{nm} is no longer `{want}`")
 
+    # ---- the encodings the client advertises (VNCDoToolClient.vncConnectionMade): a list built by conditional appends
+    m = method(client, "VNCDoToolClient", "vncConnectionMade")
+    body = [s_ for s_ in m.body if not is_log_call(s_) and not (isinstance(s_, ast.Expr) and isinstance(s_.value, ast.Constant))]
+    flags = {"self.factory.pseudocursor": "pseudocursor", "self.factory.nocursor": "nocursor", "self.factory.pseudodesktop": "pseudodesktop",
+             "self.factory.last_rect": "last_rect", "self.factory.qemu_extended_key": "qemu"}
+    encname = {"rfb.Encoding.PSEUDO_CURSOR": "ENC_PSEUDO_CURSOR", "rfb.Encoding.PSEUDO_DESKTOP_SIZE": "ENC_PSEUDO_DESKTOP_SIZE",
+               "rfb.Encoding.PSEUDO_LAST_RECT": "ENC_PSEUDO_LAST_RECT",
+               "rfb.Encoding.PSEUDO_QEMU_EXTENDED_KEY_EVENT": "ENC_PSEUDO_QEMU_EXTENDED_KEY_EVENT"}
+
+    def fcond(e):
+        if isinstance(e, ast.BoolOp):
+            return "(" + (" || " if isinstance(e.op, ast.Or) else " && ").join(fcond(v) for v in e.values) + ")"
+        if isinstance(e, ast.UnaryOp) and isinstance(e.op, ast.Not):
+            return f"(negb {fcond(e.operand)})"
+        if ast.unparse(e) in flags:
+            return flags[ast.unparse(e)]
+        raise GenError("vncConnectionMade: unsupported condition " + ast.unparse(e))
+    if ast.unparse(body[0]) != "self.setImageMode()":
+        raise GenError("vncConnectionMade no longer begins with self.setImageMode()")
+    if ast.unparse(body[1]) != "encodings = [self.encoding]":
+        raise GenError("vncConnectionMade: the list no longer starts as [self.encoding]")
+    term = "[encoding]"
+    k_ = 2
+    while k_ < len(body) and isinstance(body[k_], ast.If):
+        st = body[k_]
+        if not (len(st.body) == 1 and not st.orelse and isinstance(st.body[0], ast.Expr) and isinstance(st.body[0].value, ast.Call)
+                and ast.unparse(st.body[0].value.func) == "encodings.append" and ast.unparse(st.body[0].value.args[0]) in encname):
+            raise GenError("vncConnectionMade: unsupported step " + ast.unparse(st)[:70])
+        term = f"({term} ++ (if {fcond(st.test)} then [{encname[ast.unparse(st.body[0].value.args[0])]}] else []))"
+        k_ += 1
+    if [ast.unparse(s_) for s_ in body[k_:]] != ["self.setEncodings(encodings)", "self.factory.clientConnectionMade(self)"]:
+        raise GenError("vncConnectionMade no longer ends with setEncodings(encodings); clientConnectionMade(self): "
+                       + "; ".join(ast.unparse(s_) for s_ in body[k_:]))
+    out.append("From VD Require Import Gen.Tables.\n")
+    out.append("Definition gen_encodings (encoding : Z) (pseudocursor nocursor pseudodesktop last_rect qemu : bool) : list Z :=\n  " + term + ".\n")
+
     # ---- the exit status of vncdo (command.VNCDoCLIFactory): which status each reactor event leaves behind
     cls = next((n for n in command.body if isinstance(n, ast.ClassDef) and n.name == "VNCDoCLIFactory"), None)
     if cls is None:
